@@ -66,18 +66,44 @@ KINDS = {
     "RecursionError": RecursionError,
 }
 KIND_NAMES = {v: k for k, v in KINDS.items()}
+# variants of a case: every injected exception is an instance of a trivial SUBCLASS of its kind ("sub": what an
+# `exc_type in (StopIteration, ...)` / `type(exc) is ...` test misses) or of a subclass whose instances are FALSY ("falsy":
+# what `if exc_val:` / `if not exc_val:` confuses with "no exception").  Both libraries decide by isinstance / by the type
+# argument, so the expected outcome - and the Lean model's - is that of the plain kind.
+_VARIANT_CLS = {}
+
+
+def _falsy(self):
+    return False
+
+
+def _variant_class(kind, variant):
+    base = KINDS[kind]
+    if not variant or kind == "GeneratorExit":
+        # asyncstdlib recognises generator shutdown by `exc_type is GeneratorExit` (a *subclass* instance is thrown in
+        # like any other exception and still propagates as the same object): observed, not claimed as a finding - nothing
+        # in Python raises subclasses of GeneratorExit
+        return base
+    key = (kind, variant)
+    if key not in _VARIANT_CLS:
+        ns = {"__bool__": _falsy} if variant == "falsy" else {}
+        cls = type(base.__name__ + variant.capitalize(), (base,), ns)
+        _VARIANT_CLS[key] = cls
+        KIND_NAMES[cls] = kind
+    return _VARIANT_CLS[key]
 
 
 class ExcFactory:
     """exception objects interned by id within one run: same id = same object"""
 
-    def __init__(self):
+    def __init__(self, variant=None):
         self.objs = {}
+        self.variant = variant
 
     def __call__(self, spec):
         eid = spec[1]
         if eid not in self.objs:
-            obj = KINDS[spec[2]]()
+            obj = _variant_class(spec[2], self.variant)()
             obj.eid = eid
             if spec[0] == "from":
                 obj.__cause__ = self(spec[3])
@@ -273,7 +299,7 @@ async def _stmt(cm, block_exc, rec):
 
 
 def _run_real(decorator, case):
-    X = ExcFactory()
+    X = ExcFactory(case.get("variant"))
     glog, ops = [], []
     susp = case.get("susp", 0)
     genf, _ = _genfunc(case["prog"], susp)
@@ -572,6 +598,9 @@ def _grid(susp, handlers, afters, blocks, starts_other):
 
 def cases(tier, rng):
     full = AFTERS_BARE + AFTERS_GUARDED
+    for variant in ("sub", "falsy"):
+        for c in _grid(0, HANDLERS, AFTERS_BARE if tier == "quick" else full, BLOCKS, STARTS_OTHER):
+            yield dict(c, variant=variant)
     yield from _grid(0, HANDLERS, full, BLOCKS, STARTS_OTHER)
     yield from _grid(1, HANDLERS, full, BLOCKS, STARTS_OTHER)
     if tier != "quick":
